@@ -42,7 +42,7 @@ ASSUMPTIONS = [
     "what reaches the loop exception handler is diagnostic only",
     "timeouts > 0",
 ]
-MINIMUMS = {"monitor:cancel-honoured": 1000, "cancel_requests_too_late": 100, "monitor:terminates": 2000, "monitor:outcome": 1500, "timeouts_fired": 300, "caller_cancels_delivered": 200, "function_ended_cancelled": 50, "overlapping_calls_through_one_wrapper": 500}
+MINIMUMS = {"monitor:cancel-honoured": 1000, "cancel_requests_too_late": 100, "monitor:terminates": 2000, "monitor:outcome": 1500, "timeouts_fired": 300, "caller_cancels_delivered": 200, "function_ended_cancelled": 50, "overlapping_calls_through_one_wrapper": 500, "function_finished_in_time_while_a_bystander_blocks_the_loop_past_the_deadline": 25, "calls_of_callables_with_another_advertised_signature": 2}
 JOBS = {"quick": 4, "thorough": 8}
 LEVEL_TEXT = (
     "Every cell of the table durations {0,1,1.25,2} x outcomes {value, falsy value, Exception, falsy Exception, BaseException, self-cancel, ignores-first-cancel, cancelled-cleanup-raises} x "
